@@ -23,7 +23,7 @@ type Opts struct {
 var AllFeatures = []string{
 	"async", "err", "multi", "bind", "struct", "value", "sets", "lit", "ext", "ctxparam",
 	"composite", "basic", "args", "unneeded", "multi-inj", "multi-file", "dupparam",
-	"generic", "variadic", "variadic-functype", "want-unsupplied", "kalias", "extalias", "value-and-pointer", "rewrap", "struct-both-forms", "alias-basic", "ctx-provider", "implements-error", "adv-pkg-shadowed-by-later-decl", "value-literal", "multi-var-sets",
+	"generic", "variadic", "variadic-functype", "want-unsupplied", "kalias", "extalias", "value-and-pointer", "rewrap", "struct-both-forms", "alias-basic", "ctx-provider", "implements-error", "adv-pkg-shadowed-by-later-decl", "value-literal", "multi-var-sets", "ext-method-value",
 	"async-struct", "ptrrecv", "aiface", "embedded",
 }
 
@@ -607,6 +607,9 @@ func (g *gen) genUnit(i int) {
 		p.Form = "ext"
 		p.Pkg = g.ensureExt().Key
 		g.curExt = p.Pkg
+		if g.want("ext-method-value", "extmethod", 30) {
+			p.Method = true // kessoku.Provide(pkg.Factory.NewX): a selector chain rooted in the package
+		}
 	} else if g.want("lit", "litform", 12) {
 		p.Form = "lit"
 	}
